@@ -104,7 +104,7 @@ CHECKS.update({
 CHECKS.update({
  "C11": ("model_checking",
          "explicit-state breadth-first search over registration histories in three worlds (state = shortest history, re-executed on a fresh Mux; dedup on reference registry + canonical implementation fingerprint), probes x all rand.Intn picks after every transition",
-         "Every history over {RegisterService(local), RegisterConn x3 back-ends, DropConn x3, back-end changes its descriptors and re-registers (two directions), DropConn(unknown)} up to the depth bound is applied to the real Mux with scripted back-ends; after every transition each method is probed over its rule route, implicit route and gRPC under every handler pick: the answering back-end must be a live owner, a method with live owners is never unserved, a method with none is NotFound/Unimplemented, operation results match the reference registry, nothing panics. Both worlds carry service-config rules next to annotated ones; the second world has one descriptor file declaring two services served by two different back-ends, and a request must only be sent to a back-end that lists its service (also after the back-end changed what it serves, and not at all after a registration that reported an error); the third has two wire-compatible editions of one schema behind one method, and the answering back-end must receive every URL and body value in the field it was sent for.",
+         "Every history over {RegisterService(local), RegisterConn x3 back-ends, DropConn x3, back-end changes its descriptors and re-registers (two directions), DropConn(unknown)} up to the depth bound is applied to the real Mux with scripted back-ends; after every transition each method is probed over its rule route, implicit route and gRPC under every handler pick: the answering back-end must be a live owner, a method with live owners is never unserved, a method with none is NotFound/Unimplemented, operation results match the reference registry, nothing panics, and a service without a live owner leaves no binding behind in the routing state. Both worlds carry service-config rules next to annotated ones; the second world has one descriptor file declaring two services served by two different back-ends, and a request must only be sent to a back-end that lists its service (also after the back-end changed what it serves, and not at all after a registration that reported an error); the third has two wire-compatible editions of one schema behind one method, and the answering back-end must receive every URL and body value in the field it was sent for.",
          "Back-ends are never-dialled grpc.ClientConns whose interceptors answer reflection and data calls (validated against real grpc-go servers in the conformance pass); state merging trusts VerifFingerprint.",
          "DESIGN.md §3 C11"),
  "C12": ("model_checking",
